@@ -132,6 +132,7 @@ func record(seed int64, tier, out string) {
 			var o []byte
 			var err error
 			p := ev.Catch(func() { o, err = tglib.EncodeNasPduWithSecurity(ue, append([]byte{}, plain...), hdr, avail, newCtx) })
+			ev.Hold("PDU returned by EncodeNasPduWithSecurity", o)
 			w.Emit(ev.M{"ev": "Enc", "id": id, "hist": hi, "step": s, "hdr": int(hdr), "avail": avail, "new": newCtx,
 				"plain": ev.Ints(plain), "out": ev.Ints(o), "err": err != nil || p != "",
 				"ulAfter": int(ue.ULCount.Get()), "dlAfter": int(ue.DLCount.Get())})
@@ -181,6 +182,7 @@ func dual(r *rand.Rand, w *ev.Writer, msgs [][]byte, hi int, id *int, tier strin
 		var o []byte
 		var err error
 		p := ev.Catch(func() { o, err = tglib.EncodeNasPduWithSecurity(ue, append([]byte{}, plain...), hdr, true, newCtx) })
+		ev.Hold("PDU returned by EncodeNasPduWithSecurity", o)
 		w.Emit(ev.M{"ev": "Enc", "id": *id, "hist": hi, "ctx": c, "step": s, "hdr": int(hdr), "avail": true, "new": newCtx,
 			"plain": ev.Ints(plain), "out": ev.Ints(o), "err": err != nil || p != "",
 			"ulAfter": int(ue.ULCount.Get()), "dlAfter": int(ue.DLCount.Get())})
